@@ -2,13 +2,17 @@
 
 // Package vspec is the vocabulary shared by contracts: every function here is
 // executable (used when a counterexample is replayed on the real code) and is
-// recognised by the verification-condition generator as an abstract operation.
+// recognised by the verification-condition generator (/verif/govc) as an
+// abstract operation. Nothing in this package is compiled without the build
+// tag verif.
 package vspec
 
 import (
 	"bytes"
+	"math"
 	"strconv"
 	"time"
+	"unsafe"
 )
 
 // Text is a piece of output text.
@@ -32,9 +36,13 @@ func DecS(v int64) Text { return Text{strconv.AppendInt(nil, v, 10)} }
 // Raw is the bytes themselves.
 func Raw(b []byte) Text { return Text{append([]byte{}, b...)} }
 
-// Float is strconv's formatting of the IEEE value with the given bits.
+// Float is strconv's formatting of the IEEE value with the given bits
+// (size 32: the float32 with the low 32 bits, widened exactly).
 func Float(bits uint64, fmt byte, prec, size int) Text {
-	return Text{[]byte("float")}
+	if size == 32 {
+		return Text{strconv.AppendFloat(nil, float64(math.Float32frombits(uint32(bits))), fmt, prec, 32)}
+	}
+	return Text{strconv.AppendFloat(nil, math.Float64frombits(bits), fmt, prec, 64)}
 }
 
 func Cat(ts ...Text) Text {
@@ -50,12 +58,64 @@ func (t Text) Cat(u Text) Text { return Cat(t, u) }
 // SameText reports whether b holds exactly the text t.
 func SameText(b []byte, t Text) bool { return bytes.Equal(b, t.B) }
 
+// SameStr reports whether s is exactly the text t.
+func SameStr(s string, t Text) bool { return s == string(t.B) }
+
 // BufIs reports whether the buffer currently holds exactly t.
 func BufIs(buf *bytes.Buffer, t Text) bool { return bytes.Equal(buf.Bytes(), t.B) }
 
-// FreshOrWithin: out is nil, freshly allocated, or a window of data (never a third party's memory).
-// Natively this can only be approximated; the generator decides it on slice bases.
-func FreshOrWithin(out, data []byte) bool { return true }
+// Shared lists memory that belongs to nobody in particular (package-level
+// buffers); contract files register such buffers from an init function.
+var Shared [][]byte
+
+func overlaps(a, b []byte) bool {
+	if cap(a) == 0 || cap(b) == 0 {
+		return false
+	}
+	a, b = a[:cap(a)], b[:cap(b)]
+	pa, pb := uintptr(unsafe.Pointer(&a[0])), uintptr(unsafe.Pointer(&b[0]))
+	return pa < pb+uintptr(len(b)) && pb < pa+uintptr(len(a))
+}
+
+// FreshOrWithin: out is nil, freshly allocated, or a window of data (never a
+// third party's memory). Natively "fresh" is approximated by "does not overlap
+// data's complement nor any registered shared buffer"; the generator decides it
+// exactly on allocation identities.
+func FreshOrWithin(out, data []byte) bool {
+	for _, s := range Shared {
+		if overlaps(out, s) {
+			return false
+		}
+	}
+	return true
+}
+
+// Fresh: out is nil or memory allocated by the call (shares nothing with data
+// or with a registered shared buffer).
+func Fresh(out, data []byte) bool {
+	if overlaps(out, data) {
+		return false
+	}
+	return FreshOrWithin(out, data)
+}
+
+// Window reports whether out is exactly the window data[lo:hi] of the same
+// memory (an alias, not a copy).
+func Window(out, data []byte, lo, hi int) bool {
+	if lo < 0 || hi < lo || hi > len(data) || len(out) != hi-lo {
+		return false
+	}
+	if hi == lo {
+		return true
+	}
+	return &out[0] == &data[lo]
+}
+
+// EqBytes reports whether a and b have the same length and contents.
+func EqBytes(a, b []byte) bool { return bytes.Equal(a, b) }
+
+// EqStr reports whether the string s has exactly the bytes b.
+func EqStr(s string, b []byte) bool { return s == string(b) }
 
 // LocalYMDHMS renders an instant in the process's local time zone.
 func LocalYMDHMS(sec int64) (y, mo, d, h, mi, s int64) {
